@@ -1,3 +1,4 @@
+import QmiModel.Model.PubSubDrv
 import Drv.Common
-/-! stub driver for C07: replaced when the model is built -/
-def main : IO Unit := Drv.main' (fun (s : Unit) _ => (s, "bad-op")) ()
+/-! C07 driver: replays the linearised publish/subscribe event log on `QmiModel.PubSub.step` -/
+def main : IO Unit := Drv.main' QmiModel.PubSub.Drv.stepLine QmiModel.PubSub.State.init
